@@ -154,6 +154,9 @@ def run(chk):
         "hand-written models coq/Model/{StateOps,Traversal}.v (tied bit for bit by the streams), coq/Model/Cost.v and coq/Model/Units.v "
         "(properties C07, C09)",
         "translator/tr_turn.py (output executed against the real code on every run through the M lines)",
+        "translator/tr_travmodels.py + translator/rsparse.py + translator/rsmonad.py (feature names, get_speed, traverse_edge and "
+        "state_features of DistanceTraversalModel / SpeedTraversalModel compiled to coq/Gen/TraversalModels.v on every run; fails closed; "
+        "coq/Props/GenTravModels.v proves Model/Traversal.v equal to them for all inputs, so a misreading shows up in the walk stream)",
         "judge coq/Model/TraversalRun.v: per-term rounding to a 2^-128 grid, bands 1e-9 (state), 1e-8 + 1e-13*sensitivity*|state| "
         "(costs), 0.5 % (exact SI factors)",
         "reading of the model in exact rationals: rounding, overflow, NaN are outside the theorems (exercised bit-exactly by the stream)",
@@ -217,8 +220,23 @@ def run(chk):
         if not r.get("ok", False):
             vf.log("translator %s: %s (owned by another check; its previous output is used)" % (name, r.get("msg")))
 
+    # Gen/TraversalModels.v: traverse_edge / state_features of the distance and the speed traversal model and get_speed are regenerated
+    # from the Rust source (state features with the constructors of Gen/StateFeature.v, property C11's translator);
+    # Props/GenTravModels.v proves Model/Traversal.v equal to them for all inputs
+    mres = vf.run_translators(which=["travmodels", "statefeature"])
+    tm = mres.get("travmodels", {"ok": False, "msg": "translator module tr_travmodels.py missing"})
+    chk.coverage["translator"]["travmodels"] = {k: tm.get(k) for k in ("ok", "msg", "digest", "files", "changed")}
+    if not tm.get("ok"):
+        chk.violation("broken-correspondence", "translator", {"translator": "tr_travmodels", "error": tm.get("msg")}, tm.get("msg"),
+                      "model/traversal/default/{distance_traversal_model,speed_traversal_model,speed_traversal_engine}.rs and "
+                      "model/unit/{time,distance,internal_float}.rs have the shape the translator knows (fail closed)",
+                      detail="coq/Gen/TraversalModels.v could not be regenerated; the previous definitions (if any) are used below",
+                      found=False, key="translator-travmodels")
+    if not mres.get("statefeature", {}).get("ok", False):
+        vf.log("translator statefeature: %s (owned by C11; its previous output is used)" % mres.get("statefeature", {}).get("msg"))
+
     # Props/Links.v: the composition theorems (C01/C02/C05/C10/C13 -> C03) are re-checked with this property
-    chk.proofs(extra_targets=["Model/TraversalRun.vo", "Model/E2ERun.vo"], extra_props=["Props/Links.v"])
+    chk.proofs(extra_targets=["Model/TraversalRun.vo", "Model/E2ERun.vo"], extra_props=["Props/Links.v", "Props/GenTravModels.v"])
     quick = chk.tier == "quick"
 
     # ---- heading pairs on which the regenerated table disagrees with the specification, computed inside Coq
